@@ -276,6 +276,21 @@ static void solve_case (int p, int q, const uint64_t *rows /* p rows, bit j = co
 				if (!zero || !nullrhs) { snprintf (sig, sizeof sig, "fn=solve_dense_system|kind=variable-returned-NULL|nullrhs=%d", nullrhs); dviol (sig); break; }
 			} else if (memcmp (vt[j], x + j * len, (size_t) len)) { snprintf (sig, sizeof sig, "fn=solve_dense_system|kind=wrong-solution|nullrhs=%d|len=%d", nullrhs, len); dviol (sig); break; }
 		}
+	/* the solver pivots by exchanging row pointers: the dense operations must still mean the same on such a matrix */
+	{
+		of_mod2dense *r2 = of_mod2dense_allocate ((UINT32) p, (UINT32) q), *f = of_mod2dense_allocate ((UINT32) p, (UINT32) q);
+		int bad = 0;
+		for (i = 0; i < p; i++) for (j = 0; j < q; j++) { if ((i * 3 + j) % 4 == 0) of_mod2dense_set (r2, (UINT32) i, (UINT32) j, 1); if ((i + 2 * j) % 3 == 0) of_mod2dense_set (f, (UINT32) i, (UINT32) j, 1); }
+		of_mod2dense_copy (m, r2);
+		for (i = 0; i < p && !bad; i++) {
+			int wt = 0;
+			for (j = 0; j < q; j++) { int g = (int) of_mod2dense_get (m, (UINT32) i, (UINT32) j); wt += g; if (g != (int) of_mod2dense_get (r2, (UINT32) i, (UINT32) j)) { dviol ("fn=of_mod2dense_copy|kind=copy-of-a-solved-matrix-differs"); bad = 1; break; } }
+			if (!bad && (int) of_mod2dense_row_weight (m, (UINT32) i) != wt) { dviol ("fn=of_mod2dense_row_weight|kind=wrong-on-a-solved-matrix"); bad = 1; }
+		}
+		of_mod2dense_copy (f, m);
+		for (i = 0; i < p && !bad; i++) for (j = 0; j < q; j++) if (of_mod2dense_get (m, (UINT32) i, (UINT32) j) != of_mod2dense_get (f, (UINT32) i, (UINT32) j)) { dviol ("fn=of_mod2dense_copy|kind=copy-into-a-solved-matrix-differs"); bad = 1; break; }
+		of_mod2dense_free (r2); of_mod2dense_free (f);
+	}
 	for (i = 0; i < p; i++) free (ct[i]);
 	for (j = 0; j < q; j++) { int dupl = 0; for (i = 0; i < j; i++) if (vt[i] == vt[j]) dupl = 1; if (!dupl) free (vt[j]); }
 	free (ct); free (vt); free (x); bm_free (R);
